@@ -13,6 +13,7 @@ All theorems quantify over ARBITRARY tables: nothing relates coverage indices, c
 values, lookup / sequence / filtering-set indices to the sizes of what they index.
 -/
 import SfntV.Proofs.ShapeSafeFull
+import SfntV.Proofs.ShapeReader
 
 namespace SfntV.Props.C07
 open SfntV SfntV.Shape
@@ -162,6 +163,36 @@ theorem C07_no_panic_history (B : Nat) (ll : LookupList) (gd : Gdef) (lookups : 
         · cases h
   obtain ⟨s, _, hs⟩ := List.mem_map.mp (this _ hmem)
   exact C07_no_panic B ll gd lookups s h site hs
+
+/-- **The reader delivers the shape `C07_no_panic` asks for** (C07 ∘ C08).  `Reader.FromReader s`
+says that `s` is the image, under the field-by-field translation of Proofs/ShapeReader.lean, of a
+value that one of the modelled subtable readers (C08's value-level models of `readGsub1_1`,
+`readGsub1_2`, `readGsub2_1`, `readGsub3_1`, `readGsub4_1`, `readGsub8_1`, `readSeqContext1/2/3`,
+`readChainedSeqContext1/2/3`, `readGpos1_1`, `readGpos1_2`, `readGpos3_1`, `readGpos4_1`,
+`readGpos6_1`) returns on SOME byte string — any byte string the reader accepts.  Every such
+subtable is `guarded` and `chain3Ok`: the coverage indices are inside the arrays
+(`C08_reader_cov_in_range_*` = Proofs/OtlCovRange), context 3 / chained context 3 have a
+non-empty input (the readers reject a zero count), contexts 2 index their rule sets by class
+under a guard; for GPOS 1.1/1.2 the value records are assumed to use implemented fields only
+(`vrImpl`, the exclusion in the property text). -/
+theorem C07_reader_delivers_shape (s : Subtable) (h : Reader.FromReader s) :
+    s.guarded = true ∧ s.chain3Ok = true :=
+  Reader.fromReader_shaped h
+
+/-- **No panic on reader-delivered tables, hypothesis discharged.**  For every lookup list all of
+whose subtables come out of the modelled readers (on any accepted bytes), every GDEF table, every
+list of lookup indices and every history of glyph sequences on one context, no call panics. -/
+theorem C07_no_panic_reader (B : Nat) (ll : LookupList) (gd : Gdef) (lookups : List Nat)
+    (hist : List (List Glyph)) (h : ∀ lk ∈ ll, ∀ s ∈ lk.subtables, Reader.FromReader s) (site : String) :
+    Outcome.panic site ∉ runHistory B ll gd lookups [] hist :=
+  C07_no_panic_history B ll gd lookups hist (Reader.readerShaped_of_fromReader ll h) site
+
+/-- non-vacuity: an accepted byte string of `readGsub1_2` whose count (1) is smaller than its
+coverage table (glyphs 1 and 2): the reader prunes the coverage, the image is a subtable of the
+engine, and a lookup list built from it satisfies the hypothesis of `C07_no_panic_reader` -/
+example : Otl.Gsub.read12 [0,2, 0,8, 0,1, 0,20, 0,1, 0,2, 0,1, 0,2] = .ok ([(1, 0)], [20]) := by decide +kernel
+example : Reader.FromReader (.gsub12 [(1, 0)] [20]) :=
+  .gsub12 [0,2, 0,8, 0,1, 0,20, 0,1, 0,2, 0,1, 0,2] _ _ (by decide +kernel)
 
 /-- What remains open: API-built lists that are `guardedLL` but contain a chained context
 format 3 with an EMPTY input sequence (a shape the reader cannot deliver) and a nested ligature
